@@ -44,6 +44,11 @@ def make_convention(conv):
         # no edge_dimension attribute: the edge grid is implied by the one edge table the file has
         ds = builders.ugrid('tqp', supply=('edge_node',), edge_dimension_attr=False)
         return ds, UGrid(ds)
+    if conv == 'ugrid-edges-declared':
+        # the mesh names an edge dimension that no variable uses (the edge variables were dropped): faces and nodes
+        # are wound as ever
+        ds = builders.ugrid('tqp', with_edges=True, edge_marker=False)
+        return ds, UGrid(ds)
     if conv == 'ugrid-implied-ef':
         ds = builders.ugrid('tqp', supply=('edge_face',), edge_dimension_attr=False)
         return ds, UGrid(ds)
@@ -68,6 +73,7 @@ def body_roundtrip(ctx, conv, kind, extras, perm, linear_name, wind_by, coords=F
     kind_obj = next(k for k in convention.grid_kinds if k.value == kind)
     gdims, gsizes = expected_grid(convention, kind_obj)
     size = int(numpy.prod(gsizes))
+    extras = [(n, size if sz == 'grid' else sz) for n, sz in extras]      # 'grid': a dimension exactly as long as the flattened grid
     names = list(gdims) + [n for n, _ in extras]
     sizes = dict(zip(gdims, gsizes))
     sizes.update(dict(extras))
@@ -142,6 +148,7 @@ def body_wind_first(ctx, conv, kind, extras, position, by, fortran=False):
     kind_obj = next(k for k in convention.grid_kinds if k.value == kind)
     gdims, gsizes = expected_grid(convention, kind_obj)
     size = int(numpy.prod(gsizes))
+    extras = [(n, size if sz == 'grid' else sz) for n, sz in extras]      # 'grid': a dimension exactly as long as the flattened grid
     lin = 'cells'
     dims = [n for n, _ in extras]
     dims.insert(position, lin)
@@ -264,7 +271,7 @@ def body_default_linear_collision(ctx, conv, taken):
 
 KINDS = {'cf1d': ['face'], 'cf2d': ['face'], 'shoc_simple': ['face'],
          'shoc_standard': ['face', 'left', 'back', 'node'], 'ugrid': ['face', 'edge', 'node'],
-         'ugrid-implied': ['edge'], 'ugrid-implied-ef': ['edge']}
+         'ugrid-implied': ['edge'], 'ugrid-implied-ef': ['edge'], 'ugrid-edges-declared': ['face', 'node']}
 
 
 def cases(tier):
@@ -306,6 +313,13 @@ def cases(tier):
                     if ne >= 1 and (not q or kind in ('face', 'node')):
                         yield Case(f'windfirst:{conv}:{kind}:x{ne}:pos{pos}:name:column-major', body_wind_first,
                                    dict(conv=conv, kind=kind, extras=extras, position=pos, by='name', fortran=True))
+        # another dimension that happens to be as long as the flattened grid (twelve months on a 3x4 grid)
+        for kind in kinds[:2]:
+            ngrid = 1 if conv.startswith('ugrid') else 2
+            yield Case(f'roundtrip:{conv}:{kind}:same-length-extra:default', body_roundtrip,
+                       dict(conv=conv, kind=kind, extras=[('month', 'grid')], perm=tuple([ngrid] + list(range(ngrid))), linear_name=None, wind_by='default'))
+            yield Case(f'windfirst:{conv}:{kind}:same-length-extra:default', body_wind_first,
+                       dict(conv=conv, kind=kind, extras=[('month', 'grid'), ('t', 4)], position=2, by='default'))
         for dk in ('none', 'partial', 'scalar'):
             yield Case(f'offgrid:{conv}:{dk}', body_not_on_grid, dict(conv=conv, dims_kind=dk))
         for taken in ((), ('index',), ('index', 'index_0'), ('index_0',), ('index', 'index_1')):
